@@ -566,6 +566,7 @@ func (fr *frame) encodeInstr(in ssa.Instruction, st *State, g string) {
 			ci.bvals = append(ci.bvals, b)
 		}
 		fr.closures[x] = ci
+		fr.closurePre(x, ci, st, g)
 	case *ssa.MapUpdate:
 		fr.mapUpdate(x, st, g)
 	case *ssa.Call:
@@ -1337,6 +1338,36 @@ func (fr *frame) next(x *ssa.Next, st *State, g string) {
 	vc.note("range over map/string: iteration order and coverage are not modelled (each step yields an arbitrary remaining element)")
 }
 
+// closurePre: the `requires` clauses of a closure under contract are checked where the closure is created, over the
+// values its captured variables hold at that moment (the closure's own proof assumes them at its entry; that the
+// captured variables are not reassigned in between is the `frozen` census).
+func (fr *frame) closurePre(x *ssa.MakeClosure, ci *closureInfo, st *State, g string) {
+	vc := fr.vc
+	d, ok := vc.P.Funcs[fnKey(ci.fn)]
+	if !ok || fr != fr.rootFr {
+		return
+	}
+	reqs := d.Get("requires")
+	if len(reqs) == 0 {
+		return
+	}
+	env := vc.newSpecEnv(ci.fn, st, st)
+	for i, fv := range ci.fn.FreeVars {
+		if pt, ok := fv.Type().Underlying().(*types.Pointer); ok {
+			env.vars[fv.Name()] = sval{t: vc.load(st, ci.bindings[i], pt.Elem()), typ: pt.Elem(), addr: ci.bindings[i]}
+		} else {
+			env.vars[fv.Name()] = sval{t: ci.bindings[i], typ: fv.Type()}
+		}
+	}
+	for _, c := range reqs {
+		lab := shortKey(fnKey(ci.fn))
+		if c.Label != "" {
+			lab += ":" + c.Label
+		}
+		vc.oblige("pre@closure", lab, g, env.trBool(c.E), "requires "+c.Text+" (of the closure "+fnKey(ci.fn)+", checked where it is created)", fr.props, posOf(fr.fn, x.Pos()))
+	}
+}
+
 // addrEscapes: can the address v (an Alloc, or a FreeVar/parameter standing for one) reach code outside the function
 // and the closures it invokes itself? Uses: loads, stores *to* it, field/index addressing, and capture by closures
 // that are only called/deferred directly (their own use of the captured address is checked recursively).
@@ -1429,6 +1460,10 @@ func addrEscapes(v ssa.Value, seen map[ssa.Value]bool, depth int) bool {
 
 // ---------------------------------------------------------------- local names (for loop invariants)
 
+func isPkgLevel(obj types.Object) bool {
+	return obj.Pkg() != nil && obj.Parent() == obj.Pkg().Scope()
+}
+
 type localRef struct {
 	v     ssa.Value
 	block *ssa.BasicBlock
@@ -1443,7 +1478,7 @@ func (fr *frame) collectLocalNames() {
 			switch x := in.(type) {
 			case *ssa.DebugRef:
 				if obj := x.Object(); obj != nil && !x.IsAddr {
-					if _, isVar := obj.(*types.Var); isVar {
+					if _, isVar := obj.(*types.Var); isVar && !isPkgLevel(obj) {
 						fr.localRefs[obj.Name()] = append(fr.localRefs[obj.Name()], localRef{x.X, b, i})
 					}
 				}
@@ -1472,7 +1507,7 @@ func (fr *frame) collectLocalNames() {
 					}
 				}
 				if obj := x.Object(); obj != nil {
-					if _, isVar := obj.(*types.Var); isVar {
+					if _, isVar := obj.(*types.Var); isVar && !isPkgLevel(obj) {
 						n := obj.Name()
 						if x.IsAddr {
 							n = "&" + n
